@@ -1,9 +1,40 @@
 import PyamgV.Driver.Util
-/-! Driver ops of extension task E29 (op names prefixed `ext_`). -/
+import PyamgV.Driver.C16
+import PyamgV.Model.ExtC16Relax
+/-! Driver ops of extension task E29 (op names prefixed `ext_`).
+
+* `ext_c16_relax f name opts rho bs dinv cheb shape b n ap aj ax nb bap baj bax`
+      the model `C16R.relaxCallR` of one call of `coarse_grid_solver((name, opts))` on the CSR matrix
+      `(n ap aj ax)`.  `f` = `r` | `c` (rationals / Gaussian rationals), `opts` as for `c16_run`, recorded inputs:
+      `rho` (`-` = none), block size `bs` with the BSR arrays `(nb bap baj bax)` (`0 - - -` when unused),
+      `dinv` = the inverted diagonal blocks (flattened), `cheb` = the Chebyshev polynomial coefficients.
+      -> `ok:<shape>:<x>` or `err:<why>`
+* `ext_c16_csc f n ap aj ax`  -> `ap;aj;ax` of the model's `cscOf` (`A.tocsc()`) -/
 namespace PyamgV.Drv.ExtE29
-open PyamgV PyamgV.Drv
+open PyamgV PyamgV.Drv PyamgV.K PyamgV.C16 PyamgV.C16R
+
+def relaxOp {α : Type} [Add α] [Sub α] [Mul α] [Div α] [OfNat α 0] [OfNat α 1] [DecidableEq α]
+    (conj : α → α) (pq : String → α) (pl : String → Array α) (sl : Array α → String)
+    (name opts rho bs dinv cheb shape b : String) (A B : Csr α) : String :=
+  let ri : Rec α := { rho := if rho = "-" then none else some (pq rho), bs := nat bs, bsr := B,
+                      dinv := pl dinv, cheb := pl cheb }
+  match relaxCallR conj name (Drv.C16.parseOpts pq opts) ri A ⟨pl b, Drv.C16.parseShape shape⟩ with
+  | .ok x => "ok:" ++ Drv.C16.showShape x.shape ++ ":" ++ sl x.data
+  | .error e => "err:" ++ e
 
 def handle : List String → Option String
+  | ["ext_c16_relax", "r", name, opts, rho, bs, dinv, cheb, shape, b, n, ap, aj, ax, nb, bap, baj, bax] =>
+    some <| relaxOp id parseRat parseRats showRats name opts rho bs dinv cheb shape b
+      (Drv.C16.mkR n ap aj ax) (Drv.C16.mkR nb bap baj bax)
+  | ["ext_c16_relax", "c", name, opts, rho, bs, dinv, cheb, shape, b, n, ap, aj, ax, nb, bap, baj, bax] =>
+    some <| relaxOp CRat.conj parseCRat parseCRats showCRats name opts rho bs dinv cheb shape b
+      (Drv.C16.mkC n ap aj ax) (Drv.C16.mkC nb bap baj bax)
+  | ["ext_c16_csc", "r", n, ap, aj, ax] =>
+    let C := cscOf (Drv.C16.mkR n ap aj ax)
+    some <| showNats C.ap ++ ";" ++ showNats C.aj ++ ";" ++ showRats C.ax
+  | ["ext_c16_csc", "c", n, ap, aj, ax] =>
+    let C := cscOf (Drv.C16.mkC n ap aj ax)
+    some <| showNats C.ap ++ ";" ++ showNats C.aj ++ ";" ++ showCRats C.ax
   | _ => none
 
 end PyamgV.Drv.ExtE29
